@@ -21,28 +21,28 @@ def diff_case(impl, model):
 def execute(P, cases, ctx, tag="main", run_model=True):
     rundir = os.path.join(ctx.rundir, tag)
     groups = {}
-    if hasattr(P, "env_key"):
-        for c in cases:
-            groups.setdefault(json.dumps(P.env_key(c), sort_keys=True), []).append(c)
-    else:
-        groups[json.dumps(getattr(P, "IMPL_ENV", None) or {})] = cases
+    for c in cases:
+        env = P.env_key(c) if hasattr(P, "env_key") else (getattr(P, "IMPL_ENV", None) or {})
+        drv = P.driver_of(c) if hasattr(P, "driver_of") else P.DRIVER
+        groups.setdefault(json.dumps([env, drv], sort_keys=True), []).append(c)
     impl, model, errs = {}, {}, []
     for gi, (k, cs) in enumerate(sorted(groups.items())):
+        env, drv = json.loads(k)
         if hasattr(P, "augment"):
             # two phases: the implementation runs first; what it observed about its own
             # nondeterminism (HashMap / directory order) is handed to the model as an oracle
-            i, _, e = run_sharded(P.DRIVER, cs, ctx.drv, os.path.join(rundir, "g%d" % gi),
-                                  impl_env=json.loads(k), run_model=False, shards=getattr(P, "SHARDS", None))
+            i, _, e = run_sharded(drv, cs, ctx.drv, os.path.join(rundir, "g%d" % gi),
+                                  impl_env=env, run_model=False, shards=getattr(P, "SHARDS", None))
             errs += e
             aug = [P.augment(c, i.get(c[0])) for c in cs]
             m = {}
             if run_model:
-                _, m, e2 = run_sharded(P.DRIVER, aug, ctx.drv, os.path.join(rundir, "m%d" % gi),
+                _, m, e2 = run_sharded(drv, aug, ctx.drv, os.path.join(rundir, "m%d" % gi),
                                        run_model=True, run_impl=False, shards=getattr(P, "SHARDS", None))
                 errs += e2
         else:
-            i, m, e = run_sharded(P.DRIVER, cs, ctx.drv, os.path.join(rundir, "g%d" % gi),
-                                  impl_env=json.loads(k), run_model=run_model,
+            i, m, e = run_sharded(drv, cs, ctx.drv, os.path.join(rundir, "g%d" % gi),
+                                  impl_env=env, run_model=run_model,
                                   shards=getattr(P, "SHARDS", None))
             errs += e
         impl.update(i); model.update(m)
